@@ -21,6 +21,14 @@ coq/theories/Routes/ListModel.v + ListLemmas.v): their scope is ONE conjunct of 
      (v1_where / v2_where evaluated by vm_compute), and ListModel.run agrees with the minisql expression parser (MySQL precedence).
   Oracle  the real listing handlers, full decorator stacks, on a 7-batch / 4-billing-project minisql database: every fetched row and
      every listed entry must belong to the URL's batch / job group and to a billing project of the caller.
+Billing read paths (GET /billing, /billing_limits, /billing_projects, /api/v1alpha/billing_projects[/{billing_project}]): same machinery.
+  T  _query_billing (front_end.py) and query_billing_projects_with/without_cost (utils.py), incl. if / elif / else chains of optional
+     appends, -> C14.Lists.billing_init / bp_with_cost_init / bp_without_cost_init (flags = presence of end / user / billing project);
+     theorems: whenever a user is passed, the clause implies the user conjunct WHATEVER the other optional filters are.
+  X  the statement each real handler (full stack) issues for every caller kind (member, non-member, developer, auth service) x start x
+     end / x billing project = the generated builder for the flags that caller kind and request determine (non-developer => user
+     passed), and the scope atoms are bound to the caller / the project of the URL.
+  Oracle  the same runs on the minisql world: an unprivileged caller is shown spend rows of his own user and projects he is in only.
 """
 import json
 import os
@@ -51,7 +59,12 @@ META = dict(
                'arbitrary), the clause read with SQL precedence (OR < AND < NOT) is true only if the scope conjuncts are: jobs.batch_id = URL '
                'batch AND committed AND job group (or descendant) of the URL; billing_project_users.user = caller (v1: AND its project = the '
                'batch\'s); job_groups.batch_id = URL batch AND child of the URL group. An unbracketed OR-join is proved to leak '
-               '(C14_unbracketed_or_leaks).',
+               '(C14_unbracketed_or_leaks). BILLING READ PATHS (GET /billing, /billing_limits, /billing_projects, /api/v1alpha/billing_projects'
+               '[/{billing_project}]): for the builders regenerated from _query_billing and query_billing_projects_with/without_cost, '
+               'whenever the handler passes a user, for EVERY combination of the other optional filters (end date given or not; billing '
+               'project given or not) the clause is true only for rows with `user` = that user / projects whose member list contains him '
+               '(and = the project of the URL when one is given); a user conjunct appended only in an elif is proved to leak '
+               '(C14_user_filter_in_elif_leaks).',
     level_note='Partial: the owner / membership filters are recognised syntactically (SQL text `user = %s` / `user_cs = %s` bound to the '
                'caller, result tested before any other database access); the database and the auth service are fakes; HAIL_TERRA '
                'single-tenant mode is excluded. List endpoints: proved = the boolean structure of the emitted WHERE text implies the scope '
@@ -59,7 +72,10 @@ META = dict(
                'negated / in sampled combinations, 3 callers x 7 batches): that the `%s` of the scope atoms are bound to the URL batch / '
                'the caller, the JOIN conditions (v2 batch listing: membership row joined on the batch\'s billing project), what the Query '
                'classes of query.py put inside their brackets, the response conversion, and that ListModel.run is MySQL\'s precedence '
-               '(compared with the minisql expression parser on every emitted clause).',
+               '(compared with the minisql expression parser on every emitted clause). Billing read paths: that every caller who is '
+               'neither a developer nor (REST) the auth service makes the handler pass his own user name is NOT proved; it is checked on '
+               'the real handlers for 6 caller kinds x 4 start x 6 end values and x 7 billing projects (statement = generated builder for '
+               'the expected flags, scope atom bound to the caller), and by the row-level oracle.',
     partial=True,
 )
 TRUSTED = ['translator harness/translate/c14_routes.py (Python ast -> route table; syntactic SQL filter recognition)',
@@ -70,7 +86,8 @@ TRUSTED = ['translator harness/translate/c14_routes.py (Python ast -> route tabl
            'opaque atoms: a maximal keyword-free chunk that is not a single bracket group)',
            'harness/minisql + harness/batchdb/fakedb.py as the database of the list oracle; harness/impl/c14_lists.py rewrite_sql (CTE '
            'inlined as derived table, SELECT STRAIGHT_JOIN hint dropped, `(a, b) IN (SELECT c1, c2 FROM t WHERE w)` -> EXISTS, JOIN USING '
-           '-> ON, JSON_EXTRACT(doc, \'$[0]\') supplied in Python, hailtop parse_timestamp_msecs replaced by datetime.fromisoformat); '
+           '-> ON, JSON_EXTRACT(doc, \'$[0]\') / JSON_QUOTE / JSON_CONTAINS(array, scalar) / aggregate JSON_ARRAYAGG supplied in Python, a '
+           'midnight datetime.datetime parameter passed as datetime.date, hailtop parse_timestamp_msecs replaced by datetime.fromisoformat); '
            'render_template replaced by a capture of the page context']
 ASSUMPTIONS = ['AuthServiceAuthenticator mode (HAIL_TERRA unset); a caller is (authenticated, active, developer, username == auth)',
                'ownership = batches.user, membership = billing_project_users row of the batch\'s billing project, as seen by the SQL filters',
